@@ -114,7 +114,8 @@ def check_c16(prop, tier, seed, work, t0):
                  "in:planar_registers", "out:planar_registers", "in:base_register", "in:constant_in_memory", "in:constant_by_value",
                  "in:constant_broadcast_registers", "in:noncanonical_cells", "in:overlapping_lanes",
                  "sums:memory", "sums:registers", "sums:noncanonical_representation",
-                 "values:g64", "values:canonical_only", "values:extremes", "values:noncanonical_band"]
+                 "values:g64", "values:canonical_only", "values:extremes", "values:noncanonical_band",
+                 "in:both_operands_at_the_same_address", "forms:third_call_same_addresses_changed_contents"]
     if res.counters.get("registered_overloads", 0) != registered_expect:
         res.inconclusive.append("the binaries registered %d overloads, the table demands %d" % (res.counters.get("registered_overloads", 0), registered_expect))
     short = [i for i, n in sorted(planned.items()) if res.counters.get("ov:" + i, 0) < n]
